@@ -42,13 +42,26 @@ def oracle(inp):
         # from a solver model of the field-level contract: wrap the bytes as the only element of a message
         shape = inp['shape']
         bit = {'LLVAR,text': 2, 'LLLVAR,text': 72, 'FIXED,text': 3, 'FIXED,long': 9, 'FIXED,int': 26, 'FIXED,datetime': 12, 'LLLVAR,PDS': 48, 'LLLVAR,ICC': 55, 'LLVAR,DE43': 43}.get(shape)
-        if bit is None or not isinstance(inp['data'], bytes):
+        if not isinstance(inp['data'], bytes):
             return None
+        custom = None
+        if bit is None:
+            # shapes the packaged table does not contain: caller-supplied configuration
+            ft, kind2 = shape.split(',')
+            custom = {'2': {'field_name': 'x', 'field_type': ft, 'field_length': 12}}
+            if kind2 in ('int', 'long', 'decimal', 'datetime'):
+                custom['2']['field_python_type'] = kind2
+            elif kind2 in ('PAN', 'PAN-PREFIX'):
+                custom['2']['field_processor'] = kind2
+            bit = 2
         bm = bytearray(16); bm[0] |= 0x80; bm[(bit - 1) // 8] |= 1 << (7 - (bit - 1) % 8)
+        from cardutil.iso8583 import loads, Iso8583DataError
         for enc in ('latin_1', 'cp500'):
-            r = run_loads(b'1144'.decode().encode(enc) + bytes(bm) + inp['data'], enc, False)
-            if r:
-                return r
+            for data in (inp['data'], b'abcdefghijkl', b'12.5.6      ', b'            '):
+                try:
+                    loads('1144'.encode(enc) + bytes(bm) + data, encoding=enc, iso_config=custom)
+                except Iso8583DataError:
+                    pass
         return None
     if k in ('pds-field', 'icc-field'):
         fd = inp['fd']
@@ -120,6 +133,9 @@ def cases(tier, rng):
                         else:
                             d = d[:rng.randrange(len(d) + 1)]
                     yield {'kind': 'loads', 'raw': b2j(bytes(d)), 'enc': enc, 'hex': hexb}
+    for shape in ('FIXED,decimal', 'LLVAR,int', 'FIXED,datetime', 'LLVAR,PAN'):
+        for data in (b'abcdefghijkl', b'1.5         ', b'04ab', b'99', b'', b'\xff' * 12):
+            yield {'kind': 'decode-field', 'shape': shape, 'data': b2j(data)}
     for _ in range(200 if tier == 'quick' else 5000):
         yield {'kind': 'loads', 'raw': b2j(bytes(rng.randrange(256) for _ in range(rng.randint(0, 80)))), 'enc': rng.choice(['latin_1', 'cp500']), 'hex': rng.random() < 0.3}
     import vbs_common as V
